@@ -159,6 +159,7 @@ func init() {
 			{Scenario: "core-forge", Stratum: "acks", Quick: 500, Thorough: 20000, PerJob: 16},
 			{Scenario: "core", Stratum: "", Quick: 600, Thorough: 20000, PerJob: 32},
 			{Scenario: "xfer", Stratum: "", Quick: 250, Thorough: 6000, PerJob: 8},
+			{Scenario: "sess-mtu", Stratum: "", Quick: 400, Thorough: 10000, PerJob: 8},
 		},
 		QuickBudget: 60 * time.Second, ThoroughBudget: 25 * time.Minute,
 		Rule: "evaluations = seeded simulated runs. Clean-path strata ('core/clean', 'xfer/clean18'): FIFO links with a constant one-way delay D drawn so that 2D + the peer's acknowledgement delay + 3 ms < the sender's minimum RTO, window precondition enforced, readers keep up; every data sn must appear exactly once per direction on the wire (independent decoder) and the library's retransmission counters must stay 0. Bound half: in EVERY run of every stratum (including 'core-forge/acks', an adversary acknowledging with forged, wrapped and delayed timestamps and long silences) the RTO is read after every step and must lie in [30 or 100 by configured mode, 60000]. Non-trivial = the run delivered payload (clean strata) or a fault/forgery fired; distinct = distinct event-log hashes",
